@@ -35,7 +35,7 @@ def run(rep):
         ok = c11.confirm_rounding(rep, results) or ok
         if not ok:
             kres = [x for x in results if "non-interference" in x["name"]]
-            kp.confirm(rep, kres, {"twilight", "asr"}, 62, key_prefix="")
+            kp.confirm(rep, kres, {"twilight", "asr", "validity"}, 62, key_prefix="")
         if not rep.violations:
             rep.inconclusive.append("solver counterexamples were not reproduced natively; first: %r" % (cands[0],))
     pp.purity_native(rep)      # "shifts exactly that prayer": of this call, whatever was asked before
@@ -43,4 +43,4 @@ def run(rep):
 
 
 def judge_replay(case, results):
-    return pp.judge_replay(case, results, None) or kp.judge_replay_kernel(case, results, {"twilight", "asr"})
+    return pp.judge_replay(case, results, None) or kp.judge_replay_kernel(case, results, {"twilight", "asr", "validity"})
